@@ -35,6 +35,10 @@ PLAN = {
 def sh(*a, **k):
     return subprocess.run(list(a), capture_output=True, text=True, **k)
 def main():
+    # seeds without an entry in PLAN are run against the whole quick check of their own property
+    for d in sorted(os.listdir(ROOT)):
+        if os.path.isdir(os.path.join(ROOT, d)) and d not in PLAN and "-m" in d:
+            PLAN[d] = [(d.split("-")[0], None)]
     ids = sys.argv[1:] or sorted(PLAN)
     res_path = os.path.join(ROOT, "RESULTS.json")
     results = json.load(open(res_path)) if os.path.exists(res_path) else {}
